@@ -168,8 +168,20 @@ def check(run):
         run.violation("R4", at.where,
                       f"the factor `{ast.unparse(scale_def)}` multiplied into height / radius / extents can be negative (reflections): the primitive "
                       f"gets negative sizes and its analytic volume no longer matches its mesh", key=key_of("C15-R4", "negative-scale"))
-    txt = ast.unparse(at.node)
-    ok = "if not tf.is_rigid(updated):" in txt and "raise ValueError" in txt and "self.primitive.transform = updated" in txt
+    # every path that stores a new transform has established is_rigid(<the stored value>) - whatever the branch layout
+    from ..pathsum import summaries as _summaries
+    n_store = 0
+    ok = True
+    for ps in _summaries(at.node):
+        for st in ps.stmts:
+            if isinstance(st, ast.Assign) and isinstance(st.targets[0], ast.Attribute) and st.targets[0].attr == "transform" \
+                    and ast.unparse(st.targets[0].value).endswith(".primitive"):
+                n_store += 1
+                v = ast.unparse(st.value)
+                if not any(ps.holds(f"{a}is_rigid({v})") is True for a in ("tf.", "transformations.", "")):
+                    ok = False
+    if n_store == 0:
+        ok = False
     run.instance("R4", at.where, "non-rigid results are refused; the new transform is stored through PrimitiveAttributes", ok)
     if not ok:
         run.violation("R4", at.where, "Primitive.apply_transform no longer refuses a non-rigid result or stores the transform elsewhere", key=key_of("C15-R4", "rigid"))
